@@ -45,6 +45,13 @@ def slice_specs(draw, tier="quick", min_levels=1, max_cells=4000):
     m = spec["mesh"]
     m["nb0"] = [max(n, 2) if m["bf"] * n < 4 else n for n in m["nb0"]]       # >= 4 cells per direction
     cn = draw(st.integers(0, 2))
+    if m["nlev"] >= 2 and not m.get("full") and draw(st.integers(0, 2 ** 16)) % 8 == 0:
+        # a refined slab: level 1 spans the whole cross-section normal to the slice but only part of the normal extent
+        nbl = [n * 2 for n in m["nb0"]]
+        a = draw(st.integers(0, nbl[cn] - 1))
+        sz = draw(st.integers(1, max(1, min(3, nbl[cn] - a - (1 if a == 0 else 0)))))
+        m["rects"][0] = [[[a if d == cn else 0 for d in range(3)], [sz if d == cn else nbl[d] for d in range(3)]]]
+        m["slab"] = True
     # amplitude of the affine and of the random field: ordinary, trace-species small (an absolute tolerance of 1e-8 would
     # swallow them) or large
     amp = [1.0, 1.0, 1e-10, 1e-14, 1e9, 1.0][draw(st.integers(0, 2 ** 16)) % 6]
